@@ -156,7 +156,8 @@ fn run_consumer<K: Kmer + Send + Sync + serde::Serialize + serde::de::Deserializ
         if prior.len() > 0 {
             let id = c.node_sel % prior.len();
             let model = node_kmers_model(&prior, id);
-            let got: Vec<K> = prior.get_node_kmer(id).into_iter().collect();
+            // (bounded: an endless stream must end as a mismatch, not as an allocation failure)
+            let got: Vec<K> = prior.get_node_kmer(id).into_iter().take(model.len() + 2).collect();
             if got != model {
                 return Err(Violation::new("wrong-kmer", "NodeKmerIter::next", format!("prior graph: node {} iterated to {} k-mers that differ from the model", id, got.len())));
             }
@@ -276,6 +277,7 @@ fn run_consumer<K: Kmer + Send + Sync + serde::Serialize + serde::de::Deserializ
         let kind = c.finish_with;
         rec.choice("finish_with", kind as u64, false);
         rec.count("op_consumed_by_value");
+        let bound = rest.len() + 2;
         let got = guarded(move || -> Vec<K> {
             match kind {
                 1 => {
@@ -283,17 +285,33 @@ fn run_consumer<K: Kmer + Send + Sync + serde::Serialize + serde::de::Deserializ
                     vec![K::empty(); n]
                 }
                 2 => it.last().into_iter().collect(),
+                // the collecting consumers are bounded from inside their closure: an endless stream
+                // must end as a reported panic, not as an allocation failure that takes the process
+                // down (count / last / max on an endless stream spin without allocating and are left
+                // to the hang watchdog)
                 3 => {
                     let mut v = Vec::new();
-                    it.for_each(|k| v.push(k));
+                    it.for_each(|k| {
+                        assert!(v.len() <= bound, "endless stream: more than {} k-mers from a node that has {} left", bound, bound - 2);
+                        v.push(k)
+                    });
                     v
                 }
                 4 => it.fold(Vec::new(), |mut v, k| {
+                    assert!(v.len() <= bound, "endless stream: more than {} k-mers from a node that has {} left", bound, bound - 2);
                     v.push(k);
                     v
                 }),
                 5 => it.max().into_iter().collect(),
-                _ => it.collect(),
+                _ => {
+                    let mut n = 0usize;
+                    it.map(|k| {
+                        n += 1;
+                        assert!(n <= bound + 1, "endless stream: more than {} k-mers from a node that has {} left", bound, bound - 2);
+                        k
+                    })
+                    .collect()
+                }
             }
         });
         let want: Vec<K> = match kind {
@@ -581,7 +599,7 @@ fn run_mphf_serial<K: Kmer + Send + Sync + serde::Serialize + serde::de::Deseria
         }
     }
     // whole-graph iteration through the unwrapped graph equals the concatenation of the nodes' k-mers
-    let flat: Vec<K> = (&g).into_iter().flat_map(|nk| nk.into_iter()).collect();
+    let flat: Vec<K> = (&g).into_iter().take(mon.models.len() + 2).enumerate().flat_map(|(i, nk)| nk.into_iter().take(mon.models.get(i).map(|m| m.len()).unwrap_or(0) + 2)).collect();
     let want: Vec<K> = mon.models.iter().flat_map(|m| m.iter().cloned()).collect();
     if flat != want {
         return Err(Violation::new(
